@@ -60,10 +60,13 @@ class Section(dict):
 
         if self.type:
             if self.name:
-                start = f'{pre}<{self.type} {self.name}>'
+                start = f'{pre}<{self.type} {self.name}'
             else:
-                start = f'{pre}<{self.type}>'
-            result.append(start)
+                start = f'{pre}<{self.type}'
+            if start.endswith('/'):
+                # "<a b/ >" must not turn into the empty form "<a b/>"
+                start += ' '
+            result.append(start + '>')
             pre += '  '
 
         lst = sorted(self.items())
